@@ -790,33 +790,49 @@ def _process_match(
     blocked = False
 
     if tracked or untracked:
-        start = m.start()
-        # for literals, the end is the start of the next backreference
-        end = next((m.start(g) for _, g in tracked if g), m.end())
+        pos = m.start()  # current position in the original string
 
-        for literal, group in tracked:
+        for i, (literal, group) in enumerate(tracked):
             if literal is None:
-                literal = m.group(group) or ''
+                gstart, gend = m.span(group)
+                if gstart == -1:
+                    continue  # the group did not participate in the match
+                literal = m.group(group)
+                if gstart < pos:
+                    # overlaps with material already accounted for
+                    # (e.g., a nested group), so it cannot be aligned
+                    _insert_part(
+                        literal, 0, shift + delta, parts, smap, emap)
+                    mask.extend([_MASK_O] * len(literal))
+                    delta -= len(literal)
+                    continue
+                # matched material before the group is dropped
+                delta += gstart - pos
                 _copy_part(literal, shift + delta, parts, smap, emap)
-                mask.extend(prev_mask[(start+1):(start+len(literal)+1)])
-                end = (m.start(group+1) if group < (m.lastindex or 0)
-                       else m.end())
+                mask.extend(prev_mask[gstart+1:gend+1])
+                pos = gend
             else:
+                # a literal replaces the matched material up to the
+                # start of the next backreference
+                end = next((m.start(g) for _, g in tracked[i+1:]
+                            if g and m.start(g) >= pos),
+                           m.end())
                 # block if overlap with mask
-                if any(prev_mask[start+1:end+1]):
+                if any(prev_mask[pos+1:end+1]):
                     blocked = True
                     break
-                width = end - start
+                width = end - pos
                 litlen = len(literal)
                 _insert_part(literal, width, shift + delta, parts, smap, emap)
                 mask.extend([_MASK_O] * litlen)
                 delta += width - litlen
+                pos = end
 
-            start = end
-
-        if untracked:
+        if blocked:
+            pass
+        elif untracked:
             # block if untracked overlaps with mask, including backreferences
-            if (any(prev_mask[start+1:m.end()+1])
+            if (any(prev_mask[pos+1:m.end()+1])
                 or any(any(prev_mask[m.start(grp)+1:m.end(grp)+1])
                        for lit, grp in untracked if grp)):
                 blocked = True
@@ -826,11 +842,14 @@ def _process_match(
                     m.group(group) or '' if literal is None else literal
                     for literal, group in untracked
                 )
-                width = m.end() - start
+                width = m.end() - pos
                 litlen = len(literal)
                 _insert_part(literal, width, shift+delta, parts, smap, emap)
                 mask.extend([_MASK_O] * litlen)
                 delta += width - litlen
+        else:
+            # matched material after the last segment is dropped
+            delta += m.end() - pos
     else:
         # the replacement is empty (match is deleted)
         delta = m.end() - m.start()
